@@ -147,6 +147,43 @@ def run_reject(w, case):
     return out
 
 
+@guarded('C13')
+def run_failure_keeps_default(w, mode):
+    """a quantize call that fails must not change the configured default
+    rounding mode"""
+    cls = w.types['Mass']
+    g = w.units['g']
+    out = []
+    for dflt in ('ROUND_HALF_EVEN', 'ROUND_DOWN'):
+        O.set_mode(dflt)
+        try:
+            for amount in (O.dec('D:2.5'), F(5, 2)):
+                try:
+                    cls(amount, g).quantize(cls(0, g), O.mode_obj(mode))
+                except Exception:
+                    pass
+                try:
+                    cls(amount, g).quantize(w.types['Length'](1, w.units['m']),
+                                            O.mode_obj(mode))
+                except Exception:
+                    pass
+            if O.get_mode() != dflt:
+                out.append(('C13:failed-quantize-changed-default-mode',
+                            f"default mode {dflt} became {O.get_mode()} "
+                            f"after a failing quantize(..., {mode})"))
+            for amount in (O.dec('D:2.5'), F(5, 2), O.dec('D:-3.5')):
+                r = cls(amount, g).quantize(cls(1, g))
+                want = O.round_int(F(amount), dflt)
+                if O.fr(r.amount) != want:
+                    out.append(('C13:default-after-failed-quantize',
+                                f"after a failing quantize(..., {mode}): "
+                                f"({amount} g).quantize(1 g) = {r.amount}, "
+                                f"default mode {dflt} gives {want}"))
+        finally:
+            O.set_mode('ROUND_HALF_EVEN')
+    return out
+
+
 def part(p, ts, modes):
     tname, s_self, s_quant = p
     st = Stats()
@@ -200,6 +237,8 @@ def replay(case):
         return run_round(w, t, s, F(x), n)
     if 'reject' in case:
         return run_reject(w, case['reject'])
+    if 'failure_default' in case:
+        return run_failure_keeps_default(w, case['failure_default'])
     raise ValueError(case)
 
 
@@ -232,6 +271,13 @@ def run(tier, seed):
         total.state(('reject', tuple(case)), nontrivial=True)
         for sig, msg in run_reject(w, case):
             total.violation(sig, msg, {'reject': case})
+    for mode in O.MODES:
+        total.paths += 1
+        total.transitions += 10
+        total.evaluations += 8
+        total.state(('failure-keeps-default', mode), nontrivial=True)
+        for sig, msg in run_failure_keeps_default(w, mode):
+            total.violation(sig, msg, {'failure_default': mode})
     total.sample({'quantize': ['Length', 'mi', 'in', 'D:0.25', '5/2',
                                'ROUND_HALF_DOWN', 'default'],
                   'meaning': 'amount = 2.5 quanta of 0.25 in, held in mi'})
